@@ -46,7 +46,9 @@ def apply_ops(c, ops):
         elif op == "scale":
             a *= val
         elif op == "center":
-            a -= a.mean()
+            a -= np.round(a.mean() * 4) / 4     # the mean rounded to the quarter lattice: the values stay on the lattice
+                                                # (off it, float and exact arithmetic may place a point that sits exactly
+                                                # on a window / block edge on different sides: not a property matter)
         elif op == "overwrite":
             a[...] = np.array(val, dtype=a.dtype).reshape(a.shape)
         else:
